@@ -1,6 +1,7 @@
 mod prog;
 mod proto;
 mod seq;
+mod wire;
 
 use rand::rngs::SmallRng;
 use rand::SeedableRng;
@@ -74,6 +75,39 @@ fn main() {
             }
             out.flush().unwrap();
             println!("{{\"histories\": {}, \"events\": {}}}", n, events);
+        }
+        "gen-wire" => {
+            let seed: u64 = get("seed", "1").parse().unwrap();
+            let count: usize = get("count", "10").parse().unwrap();
+            let profile = get("profile", "pipeline");
+            let segmode = get("seg", "single");
+            let mut out = BufWriter::new(File::create(get("out", "wire.ndjson")).unwrap());
+            let mut rng = SmallRng::seed_from_u64(seed);
+            let mut events = 0;
+            let mut universes = 0;
+            let mut maxcap = 0usize;
+            let streams: Vec<wire::Stream> = if profile == "grid" {
+                // the grid is split over `parts` jobs by opcode
+                let part: usize = get("part", "0").parse().unwrap();
+                let parts: usize = get("parts", "1").parse().unwrap();
+                let limit: u32 = get("limit", "1024").parse().unwrap();
+                let ops: Vec<u8> = (0u16..=255).map(|x| x as u8).filter(|x| (*x as usize) % parts == part).collect();
+                wire::grid_streams(limit, &ops)
+            } else {
+                (0..count).map(|i| wire::gen_stream(&profile, &format!("{}-{}-{}", profile, seed, i), &mut rng)).collect()
+            };
+            for (i, s) in streams.iter().enumerate() {
+                let bytes = s.bytes();
+                writeln!(out, "{}", wire::stream_event(i + 1, s, bytes.len())).unwrap();
+                events += 1;
+                let segs = wire::segmentations(bytes.len(), &segmode, &mut rng);
+                for (u, seg) in segs.iter().enumerate() {
+                    events += wire::run_universe(&bytes, seg, s.limit, u + 1, &mut out, &mut maxcap);
+                    universes += 1;
+                }
+            }
+            out.flush().unwrap();
+            println!("{{\"streams\": {}, \"universes\": {}, \"events\": {}, \"maxcap\": {}}}", streams.len(), universes, events, maxcap);
         }
         x => {
             eprintln!("unknown sub-command {}", x);
